@@ -1334,11 +1334,29 @@ class BinaryOperator(SymbolicExpression, ABC):
     right: SymbolicExpression
     _child_: SymbolicExpression = field(init=False, default=None)
     _cache_: IndexedCache = field(default_factory=IndexedCache, init=False)
+    _cached_with_false_results_: Optional[bool] = field(default=None, init=False, repr=False)
+    """
+    Whether the results in the caches of this operator were computed while its false results were wanted too.
+    """
 
     def __post_init__(self):
         super().__post_init__()
         self.left, self.right = self._update_children_(self.left, self.right)
         self._cache_.keys = self._cache_keys_of_(self.left, self.right)
+
+    def _want_false_results_(self, yield_when_false: bool) -> None:
+        """
+        Set whether false results are wanted from this evaluation. Results that were cached while they were not wanted
+        are incomplete for an evaluation that wants them, and the other way round they contain results that are not
+        asked for (this happens when the same expression object is used in two queries), so the caches start afresh
+        when that changes.
+        """
+        self._yield_when_false_ = yield_when_false
+        if self._cached_with_false_results_ is not None and self._cached_with_false_results_ != bool(yield_when_false):
+            self._cache_.clear()
+            if isinstance(getattr(self, 'right_cache', None), IndexedCache):
+                self.right_cache.clear()
+        self._cached_with_false_results_ = bool(yield_when_false)
 
     @staticmethod
     def _cache_keys_of_(*expressions: SymbolicExpression) -> List[int]:
@@ -1624,7 +1642,7 @@ class Comparator(BinaryOperator):
          only two values, the left and right symbolic values.
         """
         sources = sources or {}
-        self._yield_when_false_ = yield_when_false
+        self._want_false_results_(yield_when_false)
 
         if self._id_ in sources:
             yield sources
@@ -1712,7 +1730,7 @@ class AND(LogicalOperator):
     def _evaluate__(self, sources: Optional[Dict[int, HashedValue]] = None, yield_when_false: bool = False) -> Iterable[Dict[int, HashedValue]]:
         # init an empty source if none is provided
         sources = sources or {}
-        self._yield_when_false_ = yield_when_false
+        self._want_false_results_(yield_when_false)
 
         # constrain left values by available sources
         left_prev = self.left._eval_parent_
@@ -1799,7 +1817,7 @@ class Union(OR):
     def _evaluate__(self, sources: Optional[Dict[int, HashedValue]] = None, yield_when_false: bool = False) -> Iterable[Dict[int, HashedValue]]:
         # init an empty source if none is provided
         sources = sources or {}
-        self._yield_when_false_ = yield_when_false
+        self._want_false_results_(yield_when_false)
 
         if self._answers_from_cache_ and is_caching_enabled() and self._cache_.check(sources):
             yield from self.yield_final_output_from_cache(sources, deduplicate_true_outputs=True)
@@ -1861,7 +1879,7 @@ class ElseIf(OR):
         """
         # init an empty source if none is provided
         sources = sources or {}
-        self._yield_when_false_ = yield_when_false
+        self._want_false_results_(yield_when_false)
 
         # constrain left values by available sources
         left_prev = self.left._eval_parent_
